@@ -10,11 +10,13 @@ package main
 import (
 	"fmt"
 	"reflect"
+	"strconv"
 	"strings"
 
 	"google.golang.org/protobuf/internal/encoding/defval"
 	ptag "google.golang.org/protobuf/internal/encoding/tag"
 	"google.golang.org/protobuf/internal/filedesc"
+	"google.golang.org/protobuf/internal/impl"
 	"google.golang.org/protobuf/proto"
 	"google.golang.org/protobuf/reflect/protodesc"
 	"google.golang.org/protobuf/reflect/protoreflect"
@@ -501,6 +503,58 @@ func legacyRandomTag(c *Ctx) string {
 	return strings.Join(segs, ",")
 }
 
+// derive op: a struct type with one tagged field, made on the fly, goes through
+// aberrantLoadMessageDesc / aberrantAppendField
+//
+//	derive <p|s|v> <gokind> <parent full name> <tag> | <full name> <number> <card> <kind> <json> <ispacked> <message is proto3> <presence>
+func legacyOpDerive(c *Ctx, shape string, gk int, tag string) {
+	et := legacyGoKinds[gk].t
+	ft := et
+	switch shape {
+	case "p":
+		if et.Kind() == reflect.Ptr || et.Kind() == reflect.Slice {
+			return // *[]byte and **T do not occur in generated code
+		}
+		ft = reflect.PtrTo(et)
+	case "s":
+		ft = reflect.SliceOf(et)
+	}
+	defer func() {
+		if r := recover(); r != nil {
+			c.PropFail("C46", fmt.Sprintf("deriving a descriptor from a struct tag panics: %v", r), shape, legacyGoKinds[gk].name, HexB([]byte(tag)))
+		}
+	}()
+	st := reflect.StructOf([]reflect.StructField{{
+		Name: "F", Type: ft, Tag: reflect.StructTag("protobuf:" + strconv.Quote(tag)),
+	}})
+	if got := st.Field(0).Tag.Get("protobuf"); got != tag {
+		return // not expressible as a struct tag
+	}
+	md := impl.LegacyLoadMessageDesc(reflect.PtrTo(st))
+	if md.Fields().Len() != 1 {
+		if tag != "" {
+			c.PropFail("C46", "a tagged struct field gives no derived field", HexB([]byte(tag)))
+		}
+		return
+	}
+	fd := md.Fields().Get(0)
+	obs := []string{
+		// (the derived message name contains the address of the Go type: replaced by "P")
+		HexB([]byte("P" + strings.TrimPrefix(string(fd.FullName()), string(md.FullName())))), HexZ(int64(fd.Number())),
+		HexN(uint64(fd.Cardinality())), HexN(uint64(fd.Kind())),
+		HexB([]byte(fd.JSONName())), Tok(fd.IsPacked()), Tok(md.Syntax() == protoreflect.Proto3), Tok(fd.HasPresence()),
+	}
+	c.Case("legacy", "derive", []string{shape, legacyGoKinds[gk].name, HexB([]byte("P")), HexB([]byte(tag))}, obs)
+	c.Stat("derive")
+	// the field agrees with what tag.Unmarshal alone says (the model compares both)
+	if (fd.Kind() == protoreflect.MessageKind || fd.Kind() == protoreflect.GroupKind) && fd.Message() == nil {
+		c.PropFail("C46", "derived message field without a message descriptor", HexB([]byte(tag)))
+	}
+	if fd.Kind() == protoreflect.EnumKind && fd.Enum() == nil {
+		c.PropFail("C46", "derived enum field without an enum descriptor", HexB([]byte(tag)))
+	}
+}
+
 func famLegacyTags(c *Ctx) {
 	legacyTagCorpus(c)
 	// hand-picked tags
@@ -508,8 +562,13 @@ func famLegacyTags(c *Ctx) {
 		"group,1,opt,name=OptionalGroup,json=optionalgroup", "group,1,opt,name=OptionalGroup,json=OptionalGroup",
 		"bytes,9,opt,name=s,def=a,b,c", "bytes,9,opt,name=s,def=", "bytes,9,opt,def=x,name=s", "varint,1,rep,name=f,proto3",
 		"varint,1,rep,packed,name=f", "4294967296,name=f", "1,,name=f", "varint,5,opt,name=e,enum=p.E,def=1"} {
-		for _, g := range legacyGoKinds {
+		for gi, g := range legacyGoKinds {
 			legacyOpUntag(c, tg, g.t, g.name == "string" && strings.HasPrefix(tg, "bytes"))
+			for _, sh := range []string{"p", "s", "v"} {
+				if !strings.Contains(tg, "enum=") {
+					legacyOpDerive(c, sh, gi, tg)
+				}
+			}
 		}
 	}
 	n := c.N / 4
@@ -540,8 +599,11 @@ func famLegacyTags(c *Ctx) {
 			}
 		default:
 			tg := legacyRandomTag(c)
-			g := legacyGoKinds[c.Intn(len(legacyGoKinds))]
-			legacyOpUntag(c, tg, g.t, false)
+			gi := c.Intn(len(legacyGoKinds))
+			legacyOpUntag(c, tg, legacyGoKinds[gi].t, false)
+			if !strings.Contains(tg, "enum=") || legacyGoKinds[gi].name == "int32" {
+				legacyOpDerive(c, []string{"p", "s", "v"}[c.Intn(3)], gi, tg)
+			}
 		}
 	}
 }
